@@ -187,3 +187,37 @@ Definition rate_mismatches (t : list rate_row) (cases : list rate_case) : list n
   indices_where (fun c => negb (rate_case_ok t c)) 0 cases.
 Definition rate_illposed (t : list rate_row) (cases : list rate_case) : list nat :=
   indices_where (fun c => negb (rate_case_wellposed t c)) 0 cases.
+
+(* ------------------------------------------------------------------ the Readout guards, as read from the source *)
+
+(* the guards of Readout.__init__ as read from the source by translator/c17.py *)
+Inductive sguard : Type := GFirstZero | GStartGeFirst | GNotIncreasing.
+
+Definition refuses (g : sguard) (start : Q) (ts : list Q) : bool :=
+  match ts with
+  | [] => false
+  | t0 :: r =>
+      match g with
+      | GFirstZero => Qeq_bool t0 0                    (* self._times[0] == 0 *)
+      | GStartGeFirst => Qle_bool t0 start             (* start_time >= self._times[0] *)
+      | GNotIncreasing => negb (increasing_from t0 r)  (* not np.all(np.diff(self._times) > 0) *)
+      end
+  end.
+
+(* empty_refused: an empty / missing `times` never reaches the guards (`elif times: ... else: raise`) *)
+Definition accepted (empty_refused : bool) (gs : list sguard) (start : Q) (ts : list Q) : bool :=
+  match ts with
+  | [] => negb empty_refused
+  | _ => forallb (fun g => negb (refuses g start ts)) gs
+  end.
+
+Definition sguard_eqb (a b : sguard) : bool :=
+  match a, b with
+  | GFirstZero, GFirstZero | GStartGeFirst, GStartGeFirst | GNotIncreasing, GNotIncreasing => true
+  | _, _ => false
+  end.
+
+Definition guards_complete (empty_refused : bool) (gs : list sguard) : bool :=
+  empty_refused && existsb (sguard_eqb GFirstZero) gs && existsb (sguard_eqb GStartGeFirst) gs
+  && existsb (sguard_eqb GNotIncreasing) gs.
+
